@@ -315,6 +315,146 @@ fn run_stream(spec: &FramerSpec, frags: Vec<Frag>, budget: usize, ex: &mut Exec)
     }
 }
 
+/// `codec` operation: the SHIPPED codecs (framed/codec/serde_json.rs, framed/codec/bytes.rs) under the
+/// real `Framed::poll_next`. The probe only records the payload handed to the codec and the codec's
+/// verdict, then returns what the real codec returned.
+struct JsonProbe {
+    inner: compio_io::framed::codec::serde_json::SerdeJsonCodec,
+    seen: std::rc::Rc<std::cell::RefCell<Vec<(Vec<u8>, Option<serde_json::Value>)>>>,
+}
+
+impl<B: IoBuf> compio_io::framed::codec::Decoder<serde_json::Value, B> for JsonProbe {
+    type Error = compio_io::framed::codec::serde_json::SerdeJsonCodecError;
+
+    fn decode(&mut self, buf: &compio_buf::Slice<B>) -> Result<serde_json::Value, Self::Error> {
+        let payload: Vec<u8> = buf.as_init().to_vec();
+        self.seen.borrow_mut().push((payload, None));
+        let r = compio_io::framed::codec::Decoder::<serde_json::Value, B>::decode(&mut self.inner, buf);
+        if let Ok(v) = &r {
+            self.seen.borrow_mut().last_mut().unwrap().1 = Some(v.clone());
+        }
+        r
+    }
+}
+
+struct BytesProbe {
+    inner: compio_io::framed::codec::bytes::BytesCodec,
+    seen: std::rc::Rc<std::cell::RefCell<Vec<(Vec<u8>, Option<Vec<u8>>)>>>,
+}
+
+impl<B: IoBuf> compio_io::framed::codec::Decoder<Bytes, B> for BytesProbe {
+    type Error = std::io::Error;
+
+    fn decode(&mut self, buf: &compio_buf::Slice<B>) -> Result<Bytes, Self::Error> {
+        let payload: Vec<u8> = buf.as_init().to_vec();
+        self.seen.borrow_mut().push((payload, None));
+        let r = compio_io::framed::codec::Decoder::<Bytes, B>::decode(&mut self.inner, buf);
+        if let Ok(v) = &r {
+            self.seen.borrow_mut().last_mut().unwrap().1 = Some(v.to_vec());
+        }
+        r
+    }
+}
+
+/// output: `item:<payload hex>` for every frame handed to the codec (decoded or refused: the
+/// stream goes on either way), `err` for an I/O / framing error, `done`.
+fn run_codec_stream(codec: &str, spec: &FramerSpec, frags: Vec<Frag>, budget: usize, line: &str, ex: &mut Exec) -> String {
+    let json_seen = std::rc::Rc::new(std::cell::RefCell::new(vec![]));
+    let bytes_seen = std::rc::Rc::new(std::cell::RefCell::new(vec![]));
+    let (js, bs) = (json_seen.clone(), bytes_seen.clone());
+    let is_json = codec == "json";
+    let r = catch(move || {
+        with_framer!(spec, f, {
+            let reader = ScriptReader { script: frags.into(), split: 0 };
+            let mut out = String::new();
+            let mut polls = 0usize;
+            macro_rules! drive {
+                ($framed:expr, $seen:expr, $is_decode_err:expr) => {{
+                    let mut framed = $framed;
+                    futures_executor::block_on(async {
+                        loop {
+                            if polls >= budget {
+                                out.push_str("fuel");
+                                break;
+                            }
+                            polls += 1;
+                            let before = $seen.borrow().len();
+                            let r = framed.next().await;
+                            let handed = $seen.borrow().len() > before;
+                            match r {
+                                Some(Ok(_)) => {
+                                    let p = $seen.borrow().last().map(|x| x.0.clone()).unwrap_or_default();
+                                    out.push_str(&format!("item:{} ", hex(&p)));
+                                }
+                                Some(Err(e)) if handed && $is_decode_err(&e) => {
+                                    let p = $seen.borrow().last().map(|x| x.0.clone()).unwrap_or_default();
+                                    out.push_str(&format!("item:{} ", hex(&p)));
+                                }
+                                Some(Err(_)) => {
+                                    out.push_str("err");
+                                    break;
+                                }
+                                None => {
+                                    out.push_str("done");
+                                    break;
+                                }
+                            }
+                        }
+                    });
+                }};
+            }
+            if is_json {
+                let c = JsonProbe { inner: compio_io::framed::codec::serde_json::SerdeJsonCodec::new(), seen: js.clone() };
+                drive!(
+                    Framed::new::<serde_json::Value, serde_json::Value>(c, f).with_reader(reader),
+                    js,
+                    |e: &compio_io::framed::codec::serde_json::SerdeJsonCodecError| matches!(
+                        e,
+                        compio_io::framed::codec::serde_json::SerdeJsonCodecError::SerdeJsonError(_)
+                    )
+                );
+            } else {
+                let c = BytesProbe { inner: compio_io::framed::codec::bytes::BytesCodec::new(), seen: bs.clone() };
+                drive!(Framed::new::<Bytes, Bytes>(c, f).with_reader(reader), bs, |_e: &std::io::Error| false);
+            }
+            out
+        })
+    });
+    match r {
+        Ok(s) => {
+            if s.ends_with("fuel") {
+                ex.fail("C13:endless-stream", format!("{line}: stream did not end within {budget} polls"));
+            }
+            // implementation-only oracle: the codec's verdict on every payload it was handed
+            let mut okn = 0;
+            let mut errn = 0;
+            for (p, got) in json_seen.borrow().iter() {
+                let want: Option<serde_json::Value> = serde_json::from_slice(p).ok();
+                if *got != want {
+                    ex.fail("C13:codec-verdict", format!("{line}: json payload {} decoded to {got:?}, serde_json says {want:?}", hex(p)));
+                }
+                if want.is_some() { okn += 1 } else { errn += 1 }
+                if p.len() < 3 {
+                    ex.tag("codec:json:tiny-payload");
+                }
+            }
+            for (p, got) in bytes_seen.borrow().iter() {
+                if got.as_deref() != Some(&p[..]) {
+                    ex.fail("C13:codec-verdict", format!("{line}: bytes payload {} decoded to {got:?}", hex(p)));
+                }
+                okn += 1;
+            }
+            ex.tag(format!("codec:{codec}:ok={}:rejected={}", okn.min(3), errn.min(3)));
+            s
+        }
+        Err(m) => {
+            // no documented panic on this path: hostile bytes must give frames or errors
+            ex.fail("C13:codec-panic", format!("{line}: {m}"));
+            "panic".into()
+        }
+    }
+}
+
 fn frag_by_sizes(data: &[u8], sizes: &[usize]) -> Vec<Vec<u8>> {
     let mut out = vec![];
     let mut i = 0;
@@ -590,6 +730,20 @@ fn exec_line(line: &str, ex: &mut Exec) -> String {
             ex.tag(format!("stream:{}:{}", w[1].split(':').next().unwrap(), out.rsplit(' ').next().unwrap()));
             out
         }
+        "codec" => {
+            // codec <json|bytes> <framer> <frags>: hostile / tiny payloads through the shipped codecs
+            let spec = parse_framer(w[2]);
+            let frags: Vec<Frag> = list_of(w[3])
+                .iter()
+                .map(|f| match f.as_str() {
+                    "E" => Frag::Err,
+                    "Z" => Frag::Zero,
+                    h => Frag::Data(unhex(h)),
+                })
+                .collect();
+            let total: usize = frags.iter().map(|f| if let Frag::Data(d) = f { d.len() } else { 0 }).sum();
+            run_codec_stream(w[1], &spec, frags, total + 2, line, ex)
+        }
         "sink" => {
             let spec = parse_framer(w[1]);
             run_sink(&spec, &list_of(w[2]), line, ex)
@@ -661,7 +815,7 @@ fn generate(tier: &str, rng: &mut Rng) -> Vec<Case> {
     for i in 0..n {
         let mut lines = vec![];
         let (fs, spec) = gen_framer(rng);
-        match rng.below(11) {
+        match rng.below(13) {
             0 => {
                 let p = { let k = rng.below(40) as usize; rng.bytes(k) };
                 lines.push(format!("enclose {fs} {}", hex(&p)));
@@ -799,6 +953,41 @@ fn generate(tier: &str, rng: &mut Rng) -> Vec<Case> {
                     });
                 }
                 lines.push(format!("stream {fs} {}", if frs.is_empty() { ".".into() } else { frs.join(",") }));
+            }
+            11..=12 => {
+                // the shipped codecs on tiny / hostile / valid payloads, framed by the real framer,
+                // delivered in random fragments with occasional I/O errors and zero reads
+                let codec = if rng.chance(2, 3) { "json" } else { "bytes" };
+                const DOCS: [&[u8]; 22] = [
+                    b"", b"7", b"42", b"\"\"", b"[]", b"{}", b"x", b"\xef\xbb", b"\xef\xbb\xbf7", b"\xef\xbb\xbf", b"null",
+                    b"true", b"{\"a\":1}", b"[1,2]", b"\"ab\"", b"-1.5", b" 1", b"1 ", b"{", b"\xee", b"0", b"[[]]",
+                ];
+                let nd = rng.range(1, 5) as usize;
+                let mut wire = vec![];
+                for _ in 0..nd {
+                    let p = if rng.chance(1, 6) {
+                        let k = rng.below(4) as usize;
+                        rng.bytes(k)
+                    } else {
+                        rng.pick(&DOCS).to_vec()
+                    };
+                    wire.extend(enclose_or_raw(&spec, p));
+                }
+                let mut frs = vec![];
+                let mut i = 0;
+                let max = *rng.pick(&[1usize, 2, 3, 16, 64]);
+                while i < wire.len() {
+                    match rng.below(12) {
+                        0 => frs.push("E".to_string()),
+                        1 => frs.push("Z".to_string()),
+                        _ => {
+                            let k = (rng.range(1, max as u64) as usize).min(wire.len() - i);
+                            frs.push(hex(&wire[i..i + k]));
+                            i += k;
+                        }
+                    }
+                }
+                lines.push(format!("codec {codec} {fs} {}", if frs.is_empty() { ".".into() } else { frs.join(",") }));
             }
             _ => {
                 lines.extend(cmsg::generate(rng));
